@@ -75,6 +75,7 @@ static short mask[NEV];          /* requested conditions, subset of READ|WRITE|C
 static int et[2];                /* edge-triggered events on fd A / B */
 static int added[NEV], stale[NEV];
 static int waits_checked;
+static int closes_with_added;   /* close+reopen steps taken while an event was still added on the fd */
 static int inject_left;          /* epoll direct: one epoll_ctl may be made to fail */
 
 #ifdef VP_WITH_LOCK
@@ -99,6 +100,10 @@ static void vp_on_wait(int kind)
 {
 	int fd;
 	waits_checked++;
+#ifdef VP_SYM_WITNESSES
+	if (waits_checked >= 2 && want_of(FD_A) && want_of(FD_B)) VP_WITNESS("a wait with both fds in the interest set");
+	if (waits_checked >= 2 && closes_with_added) VP_WITNESS("a wait after close+reopen of an fd that still had an event added (deleted afterwards)");
+#endif
 #if VP_BACKEND == BE_EPOLL || VP_BACKEND == BE_EPOLL_CL
 	{
 		struct epollop *op = base->evbase;
@@ -187,7 +192,7 @@ static void step_close(int fd)
 	int i;
 	vp_k_do_close(fd);
 	vp_k_open_at(fd);
-	for (i = 0; i < NEV; i++) if (added[i] && fd_of[i] == fd) stale[i] = 1;
+	for (i = 0; i < NEV; i++) if (added[i] && fd_of[i] == fd) { stale[i] = 1; closes_with_added++; }
 }
 static void step_wait(void)
 {
